@@ -48,6 +48,10 @@ type run struct {
 	// tainted: messages on which some session executed a mutating command of its own while an update about that
 	// very message was still held or queued for that session (the session acted on a stale view of the message).
 	tainted map[string]bool
+	// ooo: sessions in whose view a message arrived out of UID order (a queued EXISTS with a UID below one that is
+	// already in the view, or a message inserted before existing ones).
+	ooo      map[int]bool
+	prevSnap map[int][]string
 }
 
 func init() {
@@ -59,7 +63,7 @@ func New(raw json.RawMessage) (explore.Run, error) {
 	if err := json.Unmarshal(raw, &p); err != nil {
 		return nil, err
 	}
-	r := &run{p: p, orc: map[string]bool{}, tainted: map[string]bool{}}
+	r := &run{p: p, orc: map[string]bool{}, tainted: map[string]bool{}, ooo: map[int]bool{}, prevSnap: map[int][]string{}}
 	for _, o := range p.Oracles {
 		r.orc[o] = true
 	}
@@ -489,7 +493,9 @@ func (r *run) Step(ev explore.Event) []explore.Violation {
 			r.broken = "barrier: " + err.Error()
 		}
 	}
+	r.noteOutOfOrder()
 	out = append(out, r.invariants()...)
+	out = r.relabel(out)
 	if r.broken != "" {
 		out = append(out, r.viol("ENGINE", "engine", "broken", r.broken))
 	}
@@ -799,6 +805,78 @@ func (r *run) taintCanon() string {
 	var t []string
 	for k := range r.tainted {
 		t = append(t, k)
+	}
+	sort.Strings(t)
+	return strings.Join(t, ",")
+}
+
+var texRe = regexp.MustCompile(`TargetedExists: message = \S+ uid = (\d+)`)
+var sessRe = regexp.MustCompile(`^session (\d+)`)
+
+// noteOutOfOrder records sessions whose view received (or is about to receive) a message below its highest UID.
+func (r *run) noteOutOfOrder() {
+	for i, s := range r.sess {
+		d, ok := r.w.DumpOf(s.s)
+		if !ok || !d.Selected {
+			delete(r.prevSnap, i)
+			continue
+		}
+		var max uint32
+		for _, m := range d.Msgs {
+			if m.UID > max {
+				max = m.UID
+			}
+		}
+		for _, rs := range d.Responders {
+			if m := texRe.FindStringSubmatch(rs); m != nil {
+				var uid uint32
+				fmt.Sscanf(m[1], "%d", &uid)
+				if uid < max {
+					r.ooo[i] = true
+				}
+			}
+		}
+		prev := map[string]bool{}
+		for _, k := range r.prevSnap[i] {
+			prev[k] = true
+		}
+		cur := make([]string, len(d.Msgs))
+		seenOld := false
+		for k := len(d.Msgs) - 1; k >= 0; k-- {
+			key := fmt.Sprintf("%s/%d", d.Msgs[k].Internal, d.Msgs[k].UID)
+			cur[k] = key
+			if prev[key] {
+				seenOld = true
+			} else if seenOld && len(r.prevSnap[i]) > 0 {
+				r.ooo[i] = true // a new message sits before one that was already in the view
+			}
+		}
+		r.prevSnap[i] = cur
+	}
+}
+
+// relabel appends the witness of the known ordering defect to violations of sessions it applies to.
+func (r *run) relabel(vs []explore.Violation) []explore.Violation {
+	for k := range vs {
+		if strings.Contains(vs[k].Sig, "+") {
+			continue
+		}
+		if m := sessRe.FindStringSubmatch(vs[k].Msg); m != nil {
+			var i int
+			fmt.Sscanf(m[1], "%d", &i)
+			if r.ooo[i] && (vs[k].Prop == "C01" || vs[k].Prop == "C02" || vs[k].Prop == "C05") {
+				vs[k].Sig += "+out-of-order-arrival"
+				vs[k].Msg += " [a message had reached this session's view below its highest UID]"
+			}
+		}
+	}
+	return vs
+}
+
+func (r *run) oooCanon() string {
+	var t []string
+	for k := range r.ooo {
+		t = append(t, fmt.Sprint(k))
 	}
 	sort.Strings(t)
 	return strings.Join(t, ",")
